@@ -63,6 +63,10 @@ def fns_in_file(file):
     items = facts.ast().get(file)
     if items is None:
         return
+    yield from fns_in_items(items)
+
+
+def fns_in_items(items):
     for _pref, it in all_items(items):
         if it["k"] == "Fn":
             if not is_test_item(it):
@@ -407,7 +411,7 @@ def inline_helpers(fn, file, exclude=(), max_rounds=2):
 
     defs = {}
     counts = {}
-    for q, f in fns_in_file(file):
+    for q, f in (fns_in_items(file) if isinstance(file, list) else fns_in_file(file)):
         if not f.get("body") or q.startswith("trait "):
             continue
         counts[f["name"]] = counts.get(f["name"], 0) + 1
@@ -1041,3 +1045,59 @@ def collection_form(fn):
                 return None
         return src(lp["iter"]), rn(adds[0]["args"][0], names[0]), filters
     return None
+
+
+# ---------------------------------------------------------------- default view: unknown private helpers inlined
+_VOCAB = None
+EXTRA_VOCAB = {"fill_", "visit_", "remove_", "find_", "run_", "update_", "insert_", "ensure_", "is_phi", "new_phi", "into_", "produce_", "try_lift", "lift", "parse_", "preprocess", "open_file", "check_", "filter_by_", "main", "generate_cfg", "complete_basic_block", "separate_", "split_", "add_", "include_", "get_", "to_sarif", "write_", "reports_written", "serialize_", "as_bool", "val", "modulus", "comparable_element", "normalize", "mask", "bit_representation", "constant_true", "constant_false", "shift_", "for_into_while", "assign_with_op_shortcut", "plusplus", "subsub", "fmt", "from_str", "prime", "cmp", "partial_cmp", "eq", "hash", "iter_", "inf", "compute_", "multi_step_taint", "single_step_taint", "taints_any", "primary_meta", "version_string", "format_expected"}
+
+
+def vocabulary():
+    """Identifiers the rules themselves mention (string literals of rules/*.py) plus the naming prefixes above: a
+    function with such a name is something a rule may look for, so calls of it stay calls.  Any other private helper of
+    a file is read as part of its callers - which is what it is when a refactoring has just factored it out."""
+    global _VOCAB
+    if _VOCAB is None:
+        import glob
+        import os
+        import re
+
+        lits = set()
+        here = os.path.dirname(os.path.abspath(__file__))
+        for f in glob.glob(os.path.join(here, "*.py")):
+            src = open(f, encoding="utf-8").read()
+            for m in re.finditer(r'"([^"\\\n]*)"|\'([^\'\\\n]*)\'', src):
+                t = m.group(1) or m.group(2) or ""
+                lits.update(re.findall(r"[A-Za-z_][A-Za-z_0-9]*", t))
+        _VOCAB = lits
+    return _VOCAB
+
+
+def is_vocabulary(name):
+    v = vocabulary()
+    if name in v:
+        return True
+    return any(name.startswith(p) for p in EXTRA_VOCAB) or any(name.startswith(p) for p in v if p.endswith("_") and len(p) > 3)
+
+
+def inline_unknown_helpers(items):
+    """load-time pass over one file (facts.ast): in every function, calls of private helpers of the same file whose name
+    is not part of the rules' vocabulary are replaced by the helper's body"""
+    names = [f["name"] for _q, f in fns_in_items(items) if f.get("body")]
+    unknown = {n for n in names if not is_vocabulary(n)}
+    if not unknown:
+        return
+    exclude = tuple(n for n in names if n not in unknown)
+    for _q, f in list(fns_in_items(items)):
+        if not f.get("body"):
+            continue
+        # only bother when the body mentions an unknown helper
+        mentioned = False
+        for n in walk(f["body"]):
+            if (n["k"] == "Call" and n["func"]["k"] == "Path" and last(n["func"]["path"]) in unknown) or (n["k"] == "MethodCall" and n["method"] in unknown):
+                mentioned = True
+                break
+        if not mentioned:
+            continue
+        g = inline_helpers(f, items, exclude=exclude)
+        f["body"] = g["body"]
